@@ -172,7 +172,11 @@ def dtypes(ctx):
                             if a2:
                                 expr = a2[0].value
             r = is_int32_expr(f, expr) if expr is not None else None
-            if r is None and expr is not None and ('variant_headers' in U(expr) or _loops_variant_headers(f, expr)):
+            chain_vh = expr is not None and any(
+                isinstance(x, ast.Attribute) and x.attr == 'variant_headers' and U(x.value) == 'self'
+                for e2 in FT._def_chain(f, expr) for x in ast.walk(e2))
+            if r is None and expr is not None and ('variant_headers' in U(expr) or _loops_variant_headers(f, expr)
+                                                   or chain_vh):
                 # values of self.variant_headers: np.frombuffer(.., dtype=np.int32) in read_variant_headers
                 rv = P.func('read.SgzReader.read_variant_headers')
                 fb = [c for c in ast.walk(rv.node) if isinstance(c, ast.Call) and U(c.func).endswith('frombuffer')]
